@@ -961,6 +961,20 @@ func typeAssert(i *interpreter, instr *ssa.TypeAssert, itf iface) value {
 // returning its result.
 func callBuiltin(caller *frame, callpos token.Pos, fn *ssa.Builtin, args []value) value {
 	switch fn.Name() {
+	case "clear":
+		switch x := args[0].(type) {
+		case []value:
+			if len(x) > 0 {
+				elemT := fn.Type().(*types.Signature).Params().At(0).Type().Underlying().(*types.Slice).Elem()
+				for i := range x {
+					x[i] = zero(elemT)
+				}
+			}
+			return nil
+		case nil:
+			return nil
+		}
+		panic(unsupported(fmt.Sprintf("clear of %T", args[0])))
 	case "append":
 		if len(args) == 1 {
 			return args[0]
